@@ -352,6 +352,27 @@ func oneCase(c *lib.Ctx, rng *lib.RNG, sc *lib.Script, fails *[]lib.OracleFail) 
 			if w.closed {
 				continue
 			}
+			if len(w.owed) > 0 && rng.Chance(1, 4) {
+				// a poll with a context that has ALREADY ended: Next may hand out the pending event or
+				// return false – but it must not consume an event it does not hand out (seeded change c13f
+				// dropped it); no model step unless an event is delivered
+				dead, cancel := context.WithCancel(context.Background())
+				cancel()
+				c.Hit("op-next-ended-context")
+				if w.strm.Next(dead) {
+					e, err := readEvent(w.strm)
+					if err != nil {
+						r.fail("event-decode", err.Error())
+					} else if e != w.owed[0] {
+						r.fail("event-wrong", fmt.Sprintf("watcher %d (%s): a poll with an ended context got %v, owed %v", w.id, w.f, e, w.owed[0]))
+					}
+					w.owed = w.owed[1:]
+					r.op(fmt.Sprintf("next %d", w.id), fmt.Sprintf("ev %d %d", e.id, e.op))
+					kinds["read"] = true
+					continue
+				}
+				r.trace = append(r.trace, fmt.Sprintf("# next %d with an ended context => false (nothing may be consumed)", w.id))
+			}
 			if len(w.owed) > 0 {
 				e, ok, err := next(w.strm, 10*time.Second)
 				switch {
